@@ -96,6 +96,9 @@ def run(rep):
             if x["repacker"] != "ok":
                 rep.fail("repacker-raised", "the repacker failed: %s" % x["repacker"], dict(case, trace=x["trace"]))
     rep.extra["reader_repacker_schedules"] = nruns
+    # the lookup racing a maintenance process, step by step, against Model/PackLookup.v
+    import corr_C10_lookup
+    corr_C10_lookup.run(rep)
 
 
 def replay(rep, body):
